@@ -265,4 +265,84 @@ theorem rep_run {A : Nat} {seen : List Blk} {t : Tracker} (h : List Pkt) (hr : R
     have := ih hstep (by rw [feed_useSack, hs]) hc.2
     simpa [cumAck, allBlocks, run] using this
 
+/-! ### queries -/
+
+/-- one interval of the query range: its test in `is_segment_acked` against the byte-level definition -/
+theorem piece_iff {A : Nat} {seen : List Blk} {t : Tracker} (hr : Rep A seen t) (i : Ivl) (p q : Nat)
+    (hpq : p ≤ q) (hlo : i.lo = wrap32 p) (hhi : i.hi = wrap32 q) (hlen : q - p = i.hi - i.lo) (hle : i.lo ≤ i.hi)
+    (hp : A < p + half) (hq : q < A + half) :
+    (!(decide (seqCompare i.hi t.ack ≥ 0) && !containsIvl t.ivs i.lo i.hi)) = true ↔
+      ∀ z, p ≤ z → z ≤ q → ackedByte A seen z := by
+  have hcont : containsIvl t.ivs i.lo i.hi = true ↔ ∀ z, p ≤ z → z ≤ q → (A < z ∧ sacked seen z = true) := by
+    rw [containsIvl_iff _ _ _ hle]
+    constructor
+    · intro h z hz1 hz2
+      have hx := h (wrap32 z) (by unfold wrap32 at *; omega) (by unfold wrap32 at *; omega)
+      obtain ⟨p', e1, e2, e3⟩ := (hr.pts _).1 hx
+      have hw := hr.win p' e3 e2
+      have : p' = z := by unfold wrap32 half at *; omega
+      subst this; exact ⟨e2, e3⟩
+    · intro h x hx1 hx2
+      have ⟨h1, h2⟩ := h (p + (x - i.lo)) (by omega) (by omega)
+      exact (hr.pts x).2 ⟨p + (x - i.lo), by unfold wrap32 at *; omega, h1, h2⟩
+  unfold half at hp hq
+  rw [hr.ack, hhi, seqCompare_abs q A (by omega) (by omega)]
+  by_cases hqA : q < A
+  · have hc : (if q = A then (0 : Int) else if q < A then -1 else 1) = -1 := by
+      rw [if_neg (by omega), if_pos hqA]
+    rw [hc]
+    constructor
+    · intro _ z _ hz; exact Or.inl (by omega)
+    · intro _
+      have : decide ((-1 : Int) ≥ 0) = false := by decide
+      rw [this]; rfl
+  · have hc : decide ((if q = A then (0 : Int) else if q < A then -1 else 1) ≥ 0) = true := by
+      rw [if_neg hqA]; split <;> decide
+    rw [hc]
+    simp only [Bool.true_and, Bool.not_not]
+    rw [← hhi, hcont]
+    constructor
+    · intro h z hz1 hz2; exact Or.inr (h z hz1 hz2).2
+    · intro h z hz1 hz2
+      have hA : ¬ (p ≤ A) := by
+        intro hpA
+        rcases h A hpA (by omega) with h' | h'
+        · omega
+        · rw [hr.hole] at h'; cases h'
+      rcases h z hz1 hz2 with h' | h'
+      · omega
+      · exact ⟨by omega, h'⟩
+
+theorem wrap_last (s n : Nat) (h : 0 < n) : wrap32 (wrap32 s + n + 4294967295) = wrap32 (s + n - 1) := by
+  unfold wrap32; omega
+
+/-- `is_segment_acked` answers exactly the byte-level question, for every query inside the window -/
+theorem isSegmentAcked_iff {A : Nat} {seen : List Blk} {t : Tracker} (hr : Rep A seen t) (s n : Nat)
+    (hd : queryInDomain A s n = true) :
+    isSegmentAcked t (wrap32 s) n = true ↔ SegAcked A seen s n := by
+  unfold queryInDomain at hd
+  simp only [Bool.and_eq_true, decide_eq_true_eq] at hd
+  obtain ⟨⟨hd1, hd2⟩, hd3⟩ := hd
+  unfold isSegmentAcked
+  by_cases hn : n = 0
+  · subst hn; simp only [if_true, true_iff]; intro p h1 h2; omega
+  · rw [if_neg hn]
+    simp only [wrap_last s n (by omega), List.all_eq_true]
+    unfold half at hd1 hd2 hd3
+    have hab : s ≤ s + n - 1 := by omega
+    have hw : s + n - 1 < s + 2147483648 := by omega
+    constructor
+    · intro h z hz1 hz2
+      have hm := (mem_intervals_abs s (s + n - 1) (wrap32 z) hab hw).2 ⟨z, hz1, by omega, rfl⟩
+      obtain ⟨i, hi, hiz⟩ := List.any_eq_true.1 hm
+      simp only [decide_eq_true_eq] at hiz
+      obtain ⟨p, q, h1, h2, h3, hlo, hhi, hlen, hle⟩ := interval_of_abs s (s + n - 1) hab hw i hi
+      refine (piece_iff hr i p q h2 hlo hhi hlen hle (by unfold half; omega) (by unfold half; omega)).1 (h i hi) z
+        ?_ ?_ <;> (unfold wrap32 at *; omega)
+    · intro h i hi
+      obtain ⟨p, q, h1, h2, h3, hlo, hhi, hlen, hle⟩ := interval_of_abs s (s + n - 1) hab hw i hi
+      apply (piece_iff hr i p q h2 hlo hhi hlen hle (by unfold half; omega) (by unfold half; omega)).2
+      intro z hz1 hz2
+      exact h z (by omega) (by omega)
+
 end Tins.Ack
